@@ -155,6 +155,37 @@ def e2e_events(ctx, scenarios):
     return ev
 
 
+def planted_expiration_events(ctx):
+    """whether a key is expired is what its self-signature SIGNS: keys from the independent encoder that expired long ago, some with a
+    far-future key-expiration subpacket planted in the unhashed (unsigned) area of the self-signature; verification must stay falsy."""
+    pgpy = import_pgpy()
+    import struct
+    import warnings
+    from .. import build
+    ev = []
+    doc = b'signed by a key that expired long ago'
+    for label, planted in (('expired', []), ('expired, 100 years planted unhashed', [build.subpacket(9, struct.pack('>I', 86400 * 36500))]),
+                           ('expired, two planted', [build.subpacket(9, struct.pack('>I', 86400 * 36500)), build.subpacket(9, struct.pack('>I', 0))])):
+        fk = build.ForeignKey('ed25519')                      # created 2010
+        kblob = build.transferable_key(fk, [b'Expired <expired@example.org>'], extra_hashed=[build.subpacket(9, struct.pack('>I', 86400 * 5))], uid_unhashed=planted)
+        pkt, _ = build.sig_packet(fk, 0x00, 'sha256', [], [], build.subject_octets(0x00, doc=doc), created=fk.created + 3600)
+        rec = {'k': 'e2e', 'expired': True, 'scenario': {'alg': 'ed25519-foreign', 'expired': True, 'revoked': False, 'subj': 'doc (%s)' % label, 'sigs': [True]}, 'predicted': []}
+        with warnings.catch_warnings():
+            warnings.simplefilter('ignore')
+            try:
+                pub = pgpy.PGPKey.from_blob(kblob)[0]
+                s = pgpy.PGPSignature.from_blob(pkt)
+                res = pub.verify(doc, s)
+                good = [1 for x in res.good_signatures]
+                bad = [1 for x in res.bad_signatures]
+                iss = [int(x.issues) if x.issues is not None else 0 for x in list(res.good_signatures) + list(res.bad_signatures)]
+                rec.update({'raised': False, 'n': 1, 'wrong': [False], 'truthy': bool(res), 'good': good, 'bad': bad, 'issues': iss[:1], 'listed': len(res)})
+            except Exception as ex:
+                rec.update({'raised': True, 'exc': repr(ex)[:200], 'n': 0, 'wrong': [], 'truthy': False, 'good': [], 'bad': [], 'issues': [], 'listed': 0})
+        ev.append(rec)
+    return ev
+
+
 REPLAY_EXACT = True      # replay() re-executes exactly the stored case
 
 
@@ -172,7 +203,7 @@ def run(ctx):
         scen = [s for s in scen if s[0]['alg'] in ('ed25519', 'p256', 'rsa1024') or ctx.rng.random() < 0.34]
     ev = function_events(ctx)
     nf = len(ev)
-    e2e = e2e_events(ctx, scen)
+    e2e = e2e_events(ctx, scen) + planted_expiration_events(ctx)
     ev += e2e
     for e in ev:
         if e['k'] == 'e2e':
